@@ -513,6 +513,7 @@ def _run(ctx, drv, mon, workdir, t0):
             sub += lst[:25]
             unattributed += max(0, len(lst) - 25)
         obs2 = run_mem(drv, mon, [c for c, _, _ in sub], workdir, timeout=timeout * 3, bt=True, tag="bt")
+        done_groups = set()
         for c, o, k in sub:
             o2 = obs2.get(c.id)
             if o2 is None or judge(c, o2)[0] != k:
@@ -520,6 +521,12 @@ def _run(ctx, drv, mon, workdir, t0):
                 continue
             key, desc = attribute(c, o2, k, sym, parser_y)
             findings.setdefault(key, []).append((c, o2, k, desc))
+            done_groups.add((k, outcome_class(o), sym.resolve(o.sites[-1][1][:1])[0][0] if o.sites else "?"))
+        for gk, lst in groups.items():
+            if gk not in done_groups:     # did not reproduce under --bt: keep the first-pass observation, cheap key
+                c, o, k = lst[0]
+                key, desc = attribute(c, o, k, sym, parser_y)
+                findings.setdefault(key, []).append((c, o, k, desc))
     known = set(k.get("key") for k in ctx.known if k.get("status", "known") == "known")
     shrink_budget = 30 if thorough else 10
     for key in sorted(findings):
